@@ -65,7 +65,7 @@ Lemma fmt_bin O L R :
 Proof. reflexivity. Qed.
 Lemma fmt_un O A : fmt FMT_UN [(s_ "op", O); (s_ "expr", A)] = O ++ s_ " (" ++ A ++ s_ ")".
 Proof. reflexivity. Qed.
-Lemma fmt_der A : fmt FMT_DER [(s_ "var", A)] = s_ "(" ++ A ++ s_ ").diff(self.t)".
+Lemma fmt_der A : fmt FMT_DER [(s_ "var", A)] = s_ "sympy.sympify(" ++ A ++ s_ ").diff(self.t)".
 Proof. reflexivity. Qed.
 Lemma fmt_call F A :
   fmt FMT_CALL [(s_ "tree.operator.name", F); (s_ "operand_src", A)] = F ++ s_ "(" ++ A ++ s_ ")".
@@ -255,7 +255,7 @@ Fixpoint ptk (B : list str) (e : expr) : list tok :=
   | ENum lit v => [TNum lit v]
   | EBin o l r => TLp :: ptk B l ++ TRp :: TOp o :: TLp :: ptk B r ++ [TRp]
   | EUn neg a => TOp (if neg then Sub else Add) :: TLp :: ptk B a ++ [TRp]
-  | EDer a => TLp :: ptk B a ++ [TRp; TDiff]
+  | EDer a => TSympify :: TLp :: ptk B a ++ [TRp; TDiff]
   | ECall f args => TName f :: TLp :: joint [TComma] (map (ptk B) args) ++ [TRp]
   end.
 
@@ -292,7 +292,7 @@ Fixpoint embed (B : list str) (e : expr) : pexpr :=
   | ENum l v => PNum l v
   | EBin o l r => PBin o (embed B l) (embed B r)
   | EUn b a => PUn b (embed B a)
-  | EDer a => PDiff (embed B a)
+  | EDer a => PDiff (PWrap (embed B a))
   | ECall f args => PCall f (map (embed B) args)
   end.
 
@@ -325,6 +325,8 @@ Lemma pa_S n ts : pa (S n) ts =
       match pargs n r with Some (args, r') => Some (ptr (PCall f args) r') | None => None end
   | TName x :: r => Some (ptr (PName x) r)
   | TLp :: r => match pe n 1 r with Some (a, TRp :: r') => Some (ptr a r') | _ => None end
+  | TSympify :: TLp :: r =>
+      match pe n 1 r with Some (a, TRp :: r') => Some (ptr (PWrap a) r') | _ => None end
   | _ => None
   end.
 Proof. reflexivity. Qed.
@@ -363,7 +365,7 @@ Definition hd_loose (ts : list tok) : bool :=
   end.
 
 Ltac case_hd rest H :=
-  destruct rest as [|[| | | |[]| | | |] rest]; try discriminate H.
+  destruct rest as [|[| | | |[]| | | | |] rest]; try discriminate H.
 Ltac norm_app := repeat (progress (cbn [app]; rewrite <- ?app_assoc)).
 
 Lemma ptr_loose a rest : hd_loose rest = true -> ptr a rest = (a, rest).
@@ -388,6 +390,13 @@ Definition Inner (ts : list tok) (a : pexpr) (k : nat) : Prop :=
 
 Lemma pa_paren ts a k rest n :
   Inner ts a k -> S k <= n -> pa n (TLp :: ts ++ TRp :: rest) = Some (ptr a rest).
+Proof.
+  intros H Hn. destruct n as [|n]; [lia|]. rewrite pa_S. cbv beta iota.
+  rewrite (H rest n) by lia. reflexivity.
+Qed.
+
+Lemma pa_wrap ts a k rest n :
+  Inner ts a k -> S k <= n -> pa n (TSympify :: TLp :: ts ++ TRp :: rest) = Some (ptr (PWrap a) rest).
 Proof.
   intros H Hn. destruct n as [|n]; [lia|]. rewrite pa_S. cbv beta iota.
   rewrite (H rest n) by lia. reflexivity.
@@ -522,8 +531,8 @@ Proof.
     norm_app.
     destruct n as [|n]; [lia|]. rewrite pe_S.
     destruct n as [|n]; [lia|]. rewrite pu_S. cbv beta iota.
-    rewrite (pa_paren _ _ _ _ n I1) by lia.
-    change (ptr (embed B e) (TDiff :: rest)) with (ptr (PDiff (embed B e)) rest).
+    rewrite (pa_wrap _ _ _ _ n I1) by lia.
+    change (ptr (PWrap (embed B e)) (TDiff :: rest)) with (ptr (PDiff (PWrap (embed B e))) rest).
     rewrite (ptr_loose _ rest Hl), (ppow_loose _ _ rest Hl).
     apply Hk. lia.
   - (* ECall *)
@@ -574,9 +583,18 @@ Proof.
 Qed.
 
 (* ------------------------------------------------------------------ 4. meaning *)
+Lemma free_embed B e : pdiff_free (embed B e) = der_free e.
+Proof.
+  induction e using expr_ind'; cbn [embed pdiff_free der_free]; try reflexivity.
+  - destruct (str_eqb (sym_name B n) TIME); reflexivity.
+  - now rewrite IHe1, IHe2.
+  - exact IHe.
+  - induction H as [|x r Hx Hr IH]; [reflexivity|]. cbn [map forallb]. now rewrite Hx, IH.
+Qed.
+
 Section Meaning.
-  Variable powf : Qc -> Qc -> option Qc.
-  Variable callf : str -> list Qc -> option Qc.
+  Variable powf : dual -> dual -> option dual.
+  Variable callf : str -> list dual -> option dual.
   Notation pev := (peval powf callf).
   Notation mev := (m_eval powf callf).
 
@@ -602,19 +620,20 @@ Section Meaning.
     - reflexivity.
     - cbn [embed peval m_eval]. rewrite IHe1, IHe2. reflexivity.
     - cbn [embed peval m_eval]. rewrite IHe. reflexivity.
-    - destruct e; try reflexivity.
-      destruct (var_case B n HB) as [[E1 E2]|[E1 E2]];
-        cbn [embed m_eval]; unfold is_time; rewrite E1, E2; reflexivity.
+    - cbn [embed peval m_eval pdiff_free]. rewrite free_embed, IHe. reflexivity.
     - cbn [embed peval m_eval]. rewrite map_map. f_equal. f_equal.
       apply map_ext_in. intros a Ha. rewrite Forall_forall in H. now apply H.
   Qed.
 
   Lemma meaning_eq B E l r n :
     mem TIME B = false -> need_eq l r <= n ->
-    obind (py_parse n (print_tok_eq B l r)) (pev E) = m_eval_eq powf callf (pull B E false) l r.
+    option_map fst (obind (py_parse n (print_tok_eq B l r)) (pev E))
+    = m_eval_eq powf callf (pull B E false) l r.
   Proof.
     intros HB Hn. rewrite (py_parse_eq B l r n Hn). cbn [obind peval].
-    rewrite !(sem_embed B E) by exact HB. reflexivity.
+    rewrite !(sem_embed B E) by exact HB. unfold m_eval_eq.
+    destruct (mev (pull B E false) l) as [x|]; [|reflexivity].
+    destruct (mev (pull B E false) r) as [y|]; reflexivity.
   Qed.
   Lemma meaning_expr B E e n :
     mem TIME B = false -> need e + 1 <= n ->
